@@ -6,6 +6,7 @@ import (
 	"crypto/sha256"
 	"encoding/base64"
 	"fmt"
+	"google.golang.org/protobuf/encoding/protowire"
 	"io"
 	"net"
 	"net/http"
@@ -103,6 +104,9 @@ func (sc c10Script) err() error {
 func c10Specs(b *c10Backend) []*MethodSpec {
 	text := func(m protoreflect.Message) string {
 		bs, _ := protojson.Marshal(m.Interface())
+		if u := m.GetUnknown(); len(u) > 0 { // fields the backend's schema does not declare are part of what it received
+			return string(bs) + fmt.Sprintf(" unknown-fields=%x", []byte(u))
+		}
 		return string(bs)
 	}
 	mk := func(fx *Fixture, i int) *dynamicpb.Message {
@@ -400,6 +404,10 @@ func runC10(c *Ctx) {
 				b := make([]byte, c.Rng.Intn(200))
 				c.Rng.Read(b)
 				m.Set(fs.ByName("data"), protoreflect.ValueOfBytes(b))
+			}
+			if c.Rng.Intn(4) == 0 {
+				// a client built from a newer .proto: a field (number 1000) the reflected schema does not declare
+				m.SetUnknown(protowire.AppendString(protowire.AppendTag(nil, 1000, protowire.BytesType), fmt.Sprintf("tenant-%d", k)))
 			}
 			msgs = append(msgs, m)
 		}
